@@ -28,7 +28,11 @@ for p in props:
     if not os.path.exists(f): continue
     sv=json.load(open(f))['coverage'].get('analysed',{}).get('self_validation')
     if not sv or not sv.get('results'): continue
+    nb=sum(1 for r in sv['results'] if r['Expect']=='none')
+    nbs=sum(1 for r in sv['results'] if r['Expect']=='none' and not r.get('Fired'))
+    print(f"| {pid}: {nb} behaviour-preserving variants (benign/*, selftest benign-*) | benign rewrite | none | {nbs} of {nb} silent | |")
     for r in sv['results']:
+        if r['Expect']=='none' and not r.get('Fired'): continue
         kind='independent seed' if r['Name'].startswith('seeded/') else ('benign rewrite' if r['Expect']=='none' else 'hand-made mutant')
         fired=(r.get('Fired') or [''])[0].replace('|','\\|')
         exp=r['Expect'].replace('|','\\|')
